@@ -299,22 +299,46 @@ func checkC12(c *Ctx, r *Report) {
 		}
 	}
 	ops := collectMapOps(cacheFns)
+	swapHelpers := swapHelpersOf(ops)
+	// a function that only calls a swap helper has map operations too
+	for _, f := range cacheFns {
+		has := false
+		for _, mo := range ops {
+			if mo.fn == f {
+				has = true
+			}
+		}
+		if has {
+			continue
+		}
+		eachInstr(f, func(in ssa.Instruction) {
+			if call, ok := in.(*ssa.Call); ok && !has {
+				if g := unwrapSynthetic(staticCallee(call)); g != nil && swapHelpers[g] != nil {
+					ops = append(ops, &mapOps{fn: f})
+					has = true
+				}
+			}
+		})
+	}
 	nUpd, nDel := 0, 0
 	for _, mo := range ops {
 		f := mo.fn
-		for _, u := range mo.updates {
+		for _, u := range insertOpsOf(li, mo, swapHelpers) {
 			nUpd++
 			mk, _ := trackedMapField(u.Map)
 			key := fmt.Sprintf("%s: insert into %s", fnKey(f), mk)
-			pos := c.InstrPos(u)
+			pos := c.InstrPos(u.in)
 			// (a) lookup of the same key in the same map
 			var L *mapLook
 			looks := lookupsIn(f)
 			for i := range looks {
 				l := &looks[i]
-				if l.field == mk && sameVal(l.key, u.Key) && instrDominates(l.at, u) {
+				if l.field == mk && sameVal(l.key, u.Key) && instrDominates(l.at, u.in) {
 					L = l
 				}
+			}
+			if u.look != nil {
+				L = u.look // the helper that made the insert looked the key up in the same breath and handed the result back
 			}
 			adds := acctCalls(f, "addSize")
 			incs := acctCalls(f, "incEntries")
@@ -322,8 +346,8 @@ func checkC12(c *Ctx, r *Report) {
 			var problems []string
 			if L == nil {
 				// alternative accepted form: removal routine called with the same key before the insert
-				if removalBefore(c, li, f, u, ops) {
-					if ex := exitsAvoiding(u, anyOf(incs), nil); len(incs) == 0 || len(ex) > 0 {
+				if removalBefore(c, li, f, u.in, u.Key, ops) {
+					if ex := exitsAvoiding(u.in, anyOf(incs), nil); len(incs) == 0 || len(ex) > 0 {
 						problems = append(problems, "entry count is not incremented on every path after the insert")
 					}
 				} else {
@@ -342,7 +366,7 @@ func checkC12(c *Ctx, r *Report) {
 					for _, d := range decs {
 						if sa := acctSizeArg(d, "subSize"); sa != nil && sizeFromOld(sa, old) && acctGuarded(f, d, "subSize", okv, true) {
 							found = true
-							if ex := exitsAvoiding(u, isInstr(d), pruneTruth(f, okv, true)); len(ex) > 0 {
+							if ex := exitsAvoiding(u.in, isInstr(d), pruneTruth(f, okv, true)); len(ex) > 0 {
 								problems = append(problems, "when the key existed, some path from the insert to "+c.InstrPos(ex[0])+" skips the subtraction of the replaced entry's size")
 							}
 						}
@@ -358,7 +382,7 @@ func checkC12(c *Ctx, r *Report) {
 							problems = append(problems, "incrementCacheEntries at "+c.InstrPos(i)+" also runs when the key already existed")
 						}
 					}
-					if ex := exitsAvoiding(u, anyOf(incs), pruneTruth(f, okv, false)); len(ex) > 0 {
+					if ex := exitsAvoiding(u.in, anyOf(incs), pruneTruth(f, okv, false)); len(ex) > 0 {
 						problems = append(problems, "when the key was absent, some path from the insert to "+c.InstrPos(ex[0])+" skips incrementCacheEntries")
 					}
 				}
@@ -387,7 +411,7 @@ func checkC12(c *Ctx, r *Report) {
 			if !okAdd {
 				problems = append(problems, "addCacheSize is not called with the value recorded in the new entry's Size")
 			}
-			if ex := exitsAvoiding(u, anyOf(adds), nil); len(ex) > 0 {
+			if ex := exitsAvoiding(u.in, anyOf(adds), nil); len(ex) > 0 {
 				problems = append(problems, "some path from the insert to "+c.InstrPos(ex[0])+" skips addCacheSize")
 			}
 			if len(problems) > 0 {
@@ -398,7 +422,7 @@ func checkC12(c *Ctx, r *Report) {
 			// R5: add-type helpers dominated by the insert
 			bad := ""
 			for _, a := range append(append([]*ssa.Call{}, adds...), incs...) {
-				if !instrDominates(u, a) {
+				if !instrDominates(u.in, a) {
 					bad = "counter helper at " + c.InstrPos(a) + " can run before / without the insert"
 				}
 			}
@@ -506,10 +530,7 @@ func checkC12(c *Ctx, r *Report) {
 					// the entry file itself appears / disappears: same critical section as its bookkeeping.
 					// Removal of a temp file that was never published is not an entry operation.
 					arg := x.Call.Args[len(x.Call.Args)-1]
-					isTemp := derivesFrom(arg, func(v ssa.Value) bool {
-						c2, ok := v.(*ssa.Call)
-						return ok && (calleeName(c2) == "os.CreateTemp" || calleeName(c2) == "(*os.File).Name")
-					})
+					isTemp := isTempFileName(li, f, arg, 0)
 					if n == "os.Rename" || !isTemp {
 						what = "entry file " + strings.TrimPrefix(n, "os.")
 					}
@@ -638,7 +659,7 @@ func n4ord(f *ssa.Function, target ssa.Instruction) int {
 
 // removalBefore: a call to a function that deletes from the same map (removal
 // routine) with the same key dominates the insert.
-func removalBefore(c *Ctx, li *LockInfo, f *ssa.Function, u *ssa.MapUpdate, ops []*mapOps) bool {
+func removalBefore(c *Ctx, li *LockInfo, f *ssa.Function, u ssa.Instruction, uKey ssa.Value, ops []*mapOps) bool {
 	deleters := map[*ssa.Function]bool{}
 	for _, mo := range ops {
 		if len(mo.deletes) > 0 {
@@ -654,7 +675,7 @@ func removalBefore(c *Ctx, li *LockInfo, f *ssa.Function, u *ssa.MapUpdate, ops 
 		for _, g := range li.Callees[in] {
 			if deleters[g] {
 				for _, a := range call.Call.Args {
-					if sameVal(a, u.Key) {
+					if sameVal(a, uKey) {
 						found = true
 					}
 				}
@@ -813,4 +834,134 @@ func acctGuarded(f *ssa.Function, call *ssa.Call, kind string, v ssa.Value, trut
 		return true
 	}
 	return false
+}
+
+// isTempFileName: the file name v (in function f) names a temporary file that was never published: it derives from
+// os.CreateTemp / (*os.File).Name, or it is a parameter of a helper every caller hands such a name
+// (discardTempFile(tmpFile, tmpName)).
+func isTempFileName(li *LockInfo, f *ssa.Function, v ssa.Value, depth int) bool {
+	if derivesFrom(v, func(x ssa.Value) bool {
+		c2, ok := x.(*ssa.Call)
+		return ok && (calleeName(c2) == "os.CreateTemp" || calleeName(c2) == "(*os.File).Name")
+	}) {
+		return true
+	}
+	if depth > 2 {
+		return false
+	}
+	prm, ok := resolveVal(v).(*ssa.Parameter)
+	if !ok || prm.Parent() != f {
+		return false
+	}
+	idx := -1
+	for i, q := range f.Params {
+		if q == prm {
+			idx = i
+		}
+	}
+	cs := li.Callers[f]
+	if len(cs) == 0 || idx < 0 {
+		return false
+	}
+	for _, site := range cs {
+		call, okc := asCall(site.in)
+		if !okc || idx >= len(callArgs(call)) || !isTempFileName(li, site.in.Parent(), callArgs(call)[idx], depth+1) {
+			return false
+		}
+	}
+	return true
+}
+
+// insertOp is one insert into a tracked entry map as the function that accounts for it sees it: the MapUpdate itself,
+// or the call of a swap helper (old, ok := c.swapEntry(key, entry)) that looks the key up and inserts under one
+// hold of the map lock and hands the replaced entry back.
+type insertOp struct {
+	in              ssa.Instruction
+	Map, Key, Value ssa.Value
+	look            *mapLook
+}
+
+// swapHelper describes such a helper: the insert in it, and which of its parameters are the key and the new value.
+type swapHelper struct {
+	upd            *ssa.MapUpdate
+	keyIdx, valIdx int
+	field          string
+}
+
+func swapHelpersOf(ops []*mapOps) map[*ssa.Function]*swapHelper {
+	out := map[*ssa.Function]*swapHelper{}
+	for _, mo := range ops {
+		g := mo.fn
+		if len(mo.updates) != 1 || len(mo.deletes) != 0 || len(mo.lookups) != 1 || len(acctCalls(g, "addSize"))+len(acctCalls(g, "incEntries"))+len(acctCalls(g, "subSize"))+len(acctCalls(g, "decEntries")) > 0 {
+			continue
+		}
+		u, lk := mo.updates[0], mo.lookups[0]
+		fu, _ := trackedMapField(u.Map)
+		fl, _ := trackedMapField(lk.X)
+		if fu != fl || !lk.CommaOk || !sameVal(lk.Index, u.Key) || !instrDominates(lk, u) {
+			continue
+		}
+		keyIdx, valIdx := -1, -1
+		for i, p := range g.Params {
+			if sameVal(u.Key, p) {
+				keyIdx = i
+			}
+			if sameVal(u.Value, p) {
+				valIdx = i
+			}
+		}
+		if keyIdx < 0 || valIdx < 0 || g.Signature.Results().Len() != 2 {
+			continue
+		}
+		good, n := true, 0
+		eachInstr(g, func(in ssa.Instruction) {
+			ret, ok := in.(*ssa.Return)
+			if !ok || isRecoverReturn(ret) {
+				return
+			}
+			n++
+			vals := retVals(ret)
+			e0, ok0 := resolveVal(vals[0]).(*ssa.Extract)
+			e1, ok1 := resolveVal(vals[1]).(*ssa.Extract)
+			if !ok0 || !ok1 || e0.Tuple != ssa.Value(lk) || e1.Tuple != ssa.Value(lk) || e0.Index != 0 || e1.Index != 1 {
+				good = false
+			}
+		})
+		if good && n > 0 {
+			out[g] = &swapHelper{u, keyIdx, valIdx, fu}
+		}
+	}
+	return out
+}
+
+func insertOpsOf(li *LockInfo, mo *mapOps, swaps map[*ssa.Function]*swapHelper) []insertOp {
+	var out []insertOp
+	if swaps[mo.fn] == nil {
+		for _, u := range mo.updates {
+			out = append(out, insertOp{in: u, Map: u.Map, Key: u.Key, Value: u.Value})
+		}
+	}
+	eachInstr(mo.fn, func(in ssa.Instruction) {
+		call, ok := in.(*ssa.Call)
+		if !ok {
+			return
+		}
+		sh := swaps[unwrapSynthetic(staticCallee(call))]
+		if sh == nil {
+			return
+		}
+		args := callArgs(call)
+		if sh.keyIdx >= len(args) || sh.valIdx >= len(args) {
+			return
+		}
+		ml := &mapLook{at: call, key: args[sh.keyIdx], field: sh.field}
+		if e := extractOf(call, 0); e != nil {
+			ml.val = e
+		}
+		if e := extractOf(call, 1); e != nil {
+			ml.ok = e
+		}
+		out = append(out, insertOp{in: call, Map: sh.upd.Map, Key: args[sh.keyIdx], Value: args[sh.valIdx], look: ml})
+	})
+	return out
 }
